@@ -209,6 +209,36 @@ def h_pow_kinds(ctx, which, D, P):
     elif which == 'negint_exp':
         z = x ** (-2)
         table = lambda x0: lib.d_powi(ctx, x0, D - 1, n=-2)
+    elif which in ('uint8_base', 'int8_base', 'float32_base', 'float16_base', 'int16_base'):
+        # bases of a narrow numpy type: the constant acts as the real number it holds
+        c = {'uint8_base': np.uint8(3), 'int8_base': np.int8(3), 'float32_base': np.float32(2.5), 'float16_base': np.float16(2.5),
+             'int16_base': np.int16(300)}[which]
+        z = c ** x
+        table = lambda x0: lib.d_rpow(ctx, x0, D - 1, c=lib.num(ctx, Fraction(float(c))))
+    elif which == 'bigint_base':
+        z = (10 ** 30) ** x
+        table = lambda x0: lib.d_rpow(ctx, x0, D - 1, c=lib.num(ctx, Fraction(10 ** 30)))
+    elif which in ('pycomplex_exp', 'npcomplex_exp'):
+        # real base, complex scalar exponent: decided on the float build (the symbolic layer has
+        # no complex power atom); reference exp(r * log x) by composition
+        if ctx.mode == 'sym':
+            ctx.fact(True, 'complex exponent: decided on the float build')
+            ctx.eq(S.const(0), S.const(0), 'z')
+            return
+        r = (1.5 + 0.5j) if which == 'pycomplex_exp' else np.complex128(1.5 + 0.5j)
+        z = x ** r
+        Z = plain(z.data)
+        ctx.fact(np.iscomplexobj(Z), 'real ** complex scalar is complex')
+        for p in range(P):
+            for i in range(2):
+                xs = [X[d, p, i] for d in range(D)]
+                L = lib.compose(lib.d_log(ctx, xs[0], D - 1), xs, D)
+                M = [complex(r) * l for l in L]
+                import cmath
+                ref = lib.compose([cmath.exp(M[0])] * D, M, D)
+                for d in range(D):
+                    ctx.eq(Z[d, p, i], ref[d], 'z[%d,%d,%d]' % (d, p, i))
+        return
     else:
         raise KeyError(which)
     Z = plain(z.data)
@@ -282,6 +312,8 @@ def units(tier, seed):
     for op in ('mul', 'div'):
         add('utpm %s utpm/(),()/D17,P1' % op, 'h_binop', op=op, lkind='utpm', rkind='utpm', lshape=(), rshape=(), D=17, P=1)
         add('utpm %s= utpm/(2,),(2,)/D17,P1' % op, 'h_binop', op=op, lkind='utpm', rkind='utpm', lshape=(2,), rshape=(2,), D=17, P=1, form='inplace')
+    for which in ('uint8_base', 'int8_base', 'float32_base', 'float16_base', 'int16_base', 'bigint_base', 'pycomplex_exp', 'npcomplex_exp'):
+        add('pow/%s' % which, 'h_pow_kinds', which=which, D=D + 1, P=P)
     for which in ('pyfloat_base', 'pyint_base', 'npfloat_exp', 'npint_exp', 'negint_exp', 'pyint_exp0', 'pyint_exp1', 'pyint_exp2', 'pyint_exp3', 'pyint_exp4', 'pyint_exp5', 'pyint_exp7'):
         add('pow/%s' % which, 'h_pow_kinds', which=which, D=D + 1, P=P)
     return out
